@@ -1,6 +1,7 @@
 //! C18 (`ChunkedReadFile`) and C19 (`dir::FsDir`) on real temporary files.
 
 use crate::common::*;
+use std::os::unix::fs::FileExt as _;
 use bytes::Bytes;
 use http::header::{HeaderMap, HeaderValue};
 use http_serve::Entity;
@@ -374,6 +375,86 @@ pub fn c18(em: &mut Emit, thorough: bool, _seed: u64) {
                 "parallel",
             );
         }
+        // --- one instance, several streams one after the other, the file changed in between
+        // (an entity kept in a cache and served again): what an earlier stream read must not
+        // stand in for the file
+        if size >= 65537 {
+            // (first range, second range nested in it or overlapping it, truncate to / overwrite)
+            let x = size - 5000;
+            let plans: [((u64, u64), (u64, u64), Option<u64>, bool); 8] = [
+                ((x + 10, x + 110), (x + 20, x + 100), Some(x + 50), false),
+                ((x + 10, x + 110), (x + 10, x + 110), Some(x + 109), false),
+                ((x, x + 4096), (x + 1, x + 4095), Some(x + 1), false),
+                ((0, 100), (10, 90), Some(0), false),
+                ((x + 10, x + 110), (x + 20, x + 100), None, true),
+                ((0, 70_000), (65_530, 65_540), Some(65_536), false),
+                ((0, 70_000), (65_530, 65_540), None, true),
+                ((x + 10, x + 110), (x + 20, x + 100), None, false),
+            ];
+            for (r1, r2, trunc_to, overwrite) in plans {
+                if r1.1 > size || r2.1 > size {
+                    continue;
+                }
+                write_file(&path, size);
+                let crf = Arc::new(Crf::new(std::fs::File::open(&path).unwrap(), HeaderMap::new()).unwrap());
+                let (o1, _) = poll_file(&rt, &path, &crf, r1.0, r1.1, &[], 8);
+                let first_ok = o1.last() == Some(&FOut::End)
+                    && o1.iter().filter_map(|o| if let FOut::Chunk(_, d) = o { Some(d.clone()) } else { None }).flatten().collect::<Vec<u8>>() == content(r1.0..r1.1);
+                // the change: in place, same inode (the entity holds the descriptor)
+                let shift = 7u64;
+                if overwrite {
+                    std::fs::OpenOptions::new().write(true).open(&path).unwrap().write_all_at(&content(shift..size + shift), 0).unwrap();
+                }
+                let trunc = [trunc_to];
+                let (o2, _) = poll_file(&rt, &path, &crf, r2.0, r2.1, if trunc_to.is_some() { &trunc[..] } else { &[] }, 8);
+                let now_content = |a: u64, b: u64| if overwrite { content(a + shift..b + shift) } else { content(a..b) };
+                let mut ok = first_ok;
+                let mut why = if first_ok { String::new() } else { "the first stream did not deliver its range".to_string() };
+                let mut n = 0u64;
+                let mut errored = false;
+                for o in &o2 {
+                    match o {
+                        FOut::Chunk(s, d) => {
+                            if *d != now_content(*s, *s + d.len() as u64) || d.is_empty() {
+                                ok = false;
+                                why = "the second stream's bytes are not what the file holds now".into();
+                            }
+                            n += d.len() as u64;
+                        }
+                        FOut::Eof => errored = true,
+                        FOut::End => {
+                            if n != r2.1 - r2.0 {
+                                ok = false;
+                                why = format!("clean end after {} of {} bytes", n, r2.1 - r2.0);
+                            }
+                        }
+                        other => {
+                            ok = false;
+                            why = format!("unexpected {:?}", other);
+                        }
+                    }
+                }
+                if ok && matches!(trunc_to, Some(t) if t < r2.1) && !errored {
+                    ok = false;
+                    why = format!("file truncated to {} before the second stream over {}..{}: no error within 8 polls ({})", trunc_to.unwrap(), r2.0, r2.1, show_fouts(&o2));
+                }
+                if ok && trunc_to.is_none() && (n != r2.1 - r2.0 || errored) {
+                    ok = false;
+                    why = "second stream over an intact file failed".into();
+                }
+                em.pred_only(
+                    &format!(
+                        "file of {} bytes, one instance: stream {}..{} drained, then {}, then stream {}..{}",
+                        size, r1.0, r1.1,
+                        match (trunc_to, overwrite) { (Some(t), _) => format!("truncated to {}", t), (None, true) => "overwritten in place".to_string(), _ => "nothing".to_string() },
+                        r2.0, r2.1
+                    ),
+                    &pred(ok, || why.clone()),
+                    "reuse",
+                );
+            }
+            write_file(&path, size);
+        }
         // --- ETag / metadata
         let f1 = Crf::new(std::fs::File::open(&path).unwrap(), HeaderMap::new()).unwrap();
         let f2 = Crf::new(std::fs::File::open(&path).unwrap(), HeaderMap::new()).unwrap();
@@ -653,6 +734,130 @@ impl Entity for SharedFile {
 /// `serve` over real `ChunkedReadFile` entities with Range headers (also with the file truncated
 /// after the response head => an aborted body): the response head against the model, the body
 /// against the file. Part of C18's suite and, for the bytes-versus-headers clauses, of C02's.
+/// C20 over the crate's own file entity: a body served from a `ChunkedReadFile`, polled on after
+/// its clean end and after a read error (the file truncated under it). The file's stream is
+/// built on `stream::unfold`, which panics when polled after its end — the body must not pass a
+/// poll through to a stream that has ended (F13).
+pub fn file_bodies_stay_terminated(em: &mut Emit) {
+    let rt = rt();
+    let tmp = tempfile::tempdir().unwrap();
+    for &size in &[0u64, 11, 65536, 65537, 200_001] {
+        let path = tmp.path().join(format!("t{}", size));
+        let ranges: Vec<Option<String>> = vec![
+            None,
+            Some("bytes=0-".into()),
+            Some(format!("bytes={}-{}", size / 3, size.saturating_sub(2))),
+            Some(format!("bytes=0-0, {}-{}", size / 2, size.saturating_sub(1))),
+            Some("bytes=1-2, 4-5, 7-8".into()),
+        ];
+        for range in &ranges {
+            // truncate_after: None = the file stays intact; Some(k) = truncated to a third of
+            // its length after k polls
+            for truncate_after in [None, Some(0usize), Some(1), Some(2)] {
+                if truncate_after.is_some() && size < 65536 {
+                    continue;
+                }
+                write_file(&path, size);
+                let crf = Crf::new(std::fs::File::open(&path).unwrap(), HeaderMap::new()).unwrap();
+                let path2 = path.clone();
+                let range2 = range.clone();
+                let recs: Vec<PollRec> = rt.block_on(async move {
+                    tokio::spawn(async move {
+                        let mut b = http::Request::get("/");
+                        if let Some(r) = &range2 {
+                            b = b.header("range", r.as_str());
+                        }
+                        let req = b.body(()).unwrap();
+                        let resp = match std::panic::catch_unwind(std::panic::AssertUnwindSafe(|| http_serve::serve(crf, &req))) {
+                            Ok(r) => r,
+                            Err(_) => return vec![PollRec { lower: 0, upper: None, eos: false, out: Out::Panic }],
+                        };
+                        let body = resp.into_body();
+                        match truncate_after {
+                            None => drive(body, 14),
+                            Some(k) => {
+                                // `drive` takes the body by value: poll k times by hand first
+                                let mut body = Box::pin(body);
+                                let waker = noop_waker();
+                                let mut cx = Context::from_waker(&waker);
+                                let mut recs = vec![];
+                                for i in 0..14 {
+                                    if i == k {
+                                        std::fs::OpenOptions::new().write(true).open(&path2).unwrap().set_len(size / 3).unwrap();
+                                    }
+                                    let r = std::panic::catch_unwind(std::panic::AssertUnwindSafe(|| {
+                                        use http_body::Body as _;
+                                        let h = body.size_hint();
+                                        let eos = body.is_end_stream();
+                                        let out = match body.as_mut().poll_frame(&mut cx) {
+                                            Poll::Ready(Some(Ok(f))) => Out::Data(f.into_data().map(|d| d.to_vec()).unwrap_or_default()),
+                                            Poll::Ready(Some(Err(e))) => classify_err(&e),
+                                            Poll::Ready(None) => Out::End,
+                                            Poll::Pending => Out::Pending,
+                                        };
+                                        PollRec { lower: h.lower(), upper: h.upper(), eos, out }
+                                    }));
+                                    match r {
+                                        Ok(rec) => recs.push(rec),
+                                        Err(_) => {
+                                            recs.push(PollRec { lower: 0, upper: None, eos: false, out: Out::Panic });
+                                            std::mem::forget(body);
+                                            break;
+                                        }
+                                    }
+                                }
+                                recs
+                            }
+                        }
+                    })
+                    .await
+                    .unwrap_or_else(|_| vec![PollRec { lower: 0, upper: None, eos: false, out: Out::Panic }])
+                });
+                // the property: after the first terminal event (end or error) no data, no panic
+                let mut ok = true;
+                let mut why = String::new();
+                let first_term = recs.iter().position(|r| r.out.is_terminal());
+                if recs.iter().any(|r| r.out == Out::Panic) {
+                    ok = false;
+                    let at = recs.iter().position(|r| r.out == Out::Panic).unwrap();
+                    why = format!("poll {} panicked (first terminal event at poll {:?})", at, first_term);
+                } else {
+                    match first_term {
+                        None => {
+                            ok = false;
+                            why = "no terminal event within 14 polls".into();
+                        }
+                        Some(t) => {
+                            if recs[t + 1..].iter().any(|r| matches!(&r.out, Out::Data(d) if !d.is_empty())) {
+                                ok = false;
+                                why = format!("data after the terminal event at poll {}", t);
+                            }
+                            if recs.len() < t + 5 {
+                                ok = false;
+                                why = "fewer than 4 polls after the terminal event".into();
+                            }
+                            if truncate_after.is_none() && recs[t].out != Out::End {
+                                ok = false;
+                                why = format!("intact file: body failed: {:?}", recs[t].out);
+                            }
+                        }
+                    }
+                }
+                em.pred_only(
+                    &format!(
+                        "file of {} bytes served with Range {:?}, {}: polled 4 more times after the terminal event",
+                        size,
+                        range,
+                        match truncate_after { None => "intact".to_string(), Some(k) => format!("truncated to {} after {} polls", size / 3, k) }
+                    ),
+                    &pred(ok, || why.clone()),
+                    &format!("file-body:{}:{}", range.is_some(), truncate_after.is_some()),
+                );
+            }
+        }
+    }
+}
+
 pub fn serve_over_files(em: &mut Emit) {
     let rt = rt();
     let tmp = tempfile::tempdir().unwrap();
@@ -868,6 +1073,12 @@ fn build_tree() -> Tree {
         ("sub/c.gz", "sub c gz"),
         ("secret", "a decoy inside the base"),
         (long.as_str(), "long name"),
+        // files whose whole name is the suffix: the `.gz` "sibling" of the directory path itself
+        // (`""` + ".gz", `"sub/"` + ".gz"), and names that are nearly that
+        (".gz", "just the suffix"),
+        ("sub/.gz", "just the suffix, in sub"),
+        ("..gz", "dot + suffix"),
+        ("a.gz.gz", "gz of the gz"),
     ] {
         std::fs::write(base.join(p), c).unwrap();
     }
@@ -956,6 +1167,7 @@ pub fn c19(em: &mut Emit, thorough: bool, seed: u64) {
     let bs_abs = format!("{}\\secret", t.outer.display().to_string().replace('/', "\\"));
     let segs: Vec<&str> = vec![
         "a", "sub", "..", ".", "...", "..a", "a..", "", "secret", "b", "c", "d", "e", "f", "g", "h", "k", "g.gz", &long,
+        ".gz", "..gz", "a.gz", "a.gz.gz",
         // backslashes are ordinary name bytes, not separators
         "sub\\a", "..\\secret", "\\", "a\\..", &bs_abs,
     ];
@@ -1097,15 +1309,13 @@ pub fn c19(em: &mut Emit, thorough: bool, seed: u64) {
                             .map_err(|e| classify_io(&e))
                     };
                     // the `.gz` sibling counts only if it can be opened and is not a directory
-                    let sibling = if p.is_empty() {
-                        None
-                    } else {
-                        std::fs::File::open(format!("{}.gz", full))
-                            .and_then(|f| f.metadata())
-                            .ok()
-                            .filter(|m| !m.is_dir())
-                            .map(|m| (m.dev(), m.ino()))
-                    };
+                    // (for the empty path, and a path ending in `/`, `<path>.gz` is the file
+                    // whose whole name is `.gz` in that directory)
+                    let sibling = std::fs::File::open(format!("{}.gz", full))
+                        .and_then(|f| f.metadata())
+                        .ok()
+                        .filter(|m| !m.is_dir())
+                        .map(|m| (m.dev(), m.ino()));
                     let want_gz = auto == 1 && sg && sibling.is_some();
                     match (&node_ino, want_gz) {
                         (Some((dev, ino, ce, vary)), true) => {
